@@ -133,6 +133,15 @@ func programs() []program {
 		"api/v1.thrift": "struct T { 1: optional string s }\n", "api/v2.thrift": "struct T { 1: optional i32 s }\n", "api/v3.thrift": "exception X { 1: optional string m }\n",
 		"lib/v1/types.thrift": "struct Unused { 1: optional i32 u }\n",
 	}})
+	// 2b'. includes whose aliases interact with each other and with imported runtime packages
+	// (errors / errors2, fmt / fmt2, wire / wire2), used only in service signatures
+	ps = append(ps, program{Name: "interacting-aliases", Root: "root.thrift", Small: true, Files: map[string]string{
+		"root.thrift": "include \"./errors.thrift\"\ninclude \"./errors2.thrift\"\ninclude \"./fmt.thrift\"\ninclude \"./fmt2.thrift\"\ninclude \"./wire2.thrift\"\ninclude \"./wire.thrift\"\n" +
+			"struct Local { 1: required string s; 2: optional list<i32> l }\nexception LocalX { 1: optional string m }\nenum LocalE { A }\n" +
+			"service S { errors.T a(1: errors2.T x, 2: fmt.T y, 3: fmt2.T z) throws (1: LocalX e)\n wire.T b(1: wire2.T w) }\n",
+		"errors.thrift": "struct T { 1: optional string s }\n", "errors2.thrift": "struct T { 1: optional i32 s }\n", "fmt.thrift": "struct T { 1: optional i64 s }\n",
+		"fmt2.thrift": "struct T { 1: optional bool s }\n", "wire.thrift": "struct T { 1: optional double s }\n", "wire2.thrift": "struct T { 1: optional binary s }\n",
+	}})
 	// 2c. set literals that repeat an item (accepted by the compiler)
 	ps = append(ps, program{Name: "set-literals-with-repeats", Root: "root.thrift", Small: true, Files: map[string]string{
 		"root.thrift": "const set<string> S = [\"a\", \"b\", \"c\", \"a\", \"d\", \"b\"]\nconst set<double> D = [1, 1.0, 2, 3, 2]\nconst set<i32> I = [5, 4, 5, 3, 4, 2]\nconst set<bool> B = [true, false, true]\n" +
